@@ -975,7 +975,7 @@ class FastSyncGroup(SyncGroupBase, XDP):
     """A :class:`SyncGroup` where all devices are EBPF programs"""
     license = "GPL"
 
-    properties = ArrayMap()
+    properties = ProcessSyncGroup.properties  # DeviceVars live in this map
     wkc_errors = properties.globalVar('I')
 
     def __init__(self, ec, devices, **kwargs):
